@@ -93,7 +93,7 @@ def build_items(tier, seed, wd):
     for k, form in enumerate(forms):
         cfg, rules = configs.number_of_spaces_config(table, form)
         if rules:
-            tag = "nspaces%d" % k
+            tag = "nspaces:%s" % form
             cfgfile = configs.write_config(cfg, os.path.join(wd, tag + ".json"))
             sweeps[tag] = cfg["rule"]
             cand = sorted(set(f for r in rules for f in inputs.get(r, []) if f.endswith("_test_input.vhd"))) + [p for p in paths if "/styles/code_examples/" in p and p.endswith(".vhd")]
